@@ -674,11 +674,57 @@ fn analyse(sc: &Scenario, res: &RunResult, rep: &mut CaseReport) {
     rep.count(format!("status.{}", res.status));
 }
 
+/// All 2-application x {exact, wildcard, broadcast}^2 binding combinations on one machine, each
+/// hit by datagrams to (A,P), (other address,P), (255.255.255.255,P) and (A,P+1): 36 scenarios.
+const GRID: u64 = 36;
+fn grid_scenario(i: u64) -> Scenario {
+    let a = own_addr(0);
+    let p = 5000u16;
+    let kind = |k: u64| match k {
+        0 => Ep::new(a, p),
+        1 => Ep::new(ANY, p),
+        _ => Ep::new(BCAST, p),
+    };
+    let (k0, k1, d) = (i % 3, (i / 3) % 3, (i / 9) % 4);
+    let dst = match d {
+        0 => Ep::new(a, p),
+        1 => Ep::new(FOREIGN, p),
+        2 => Ep::new(BCAST, p),
+        _ => Ep::new(a, p + 1),
+    };
+    let receiver = MachineSpec {
+        nets: vec![0],
+        udp: true,
+        apps: vec![
+            AppSpec { n: 0, script: vec![Action { at: None, kind: ActionKind::Listen(kind(k0)) }], echo: true },
+            AppSpec { n: 1, script: vec![Action { at: None, kind: ActionKind::Listen(kind(k1)) }], echo: true },
+        ],
+        ..Default::default()
+    };
+    let sender = MachineSpec {
+        nets: vec![0],
+        udp: true,
+        routes: vec![Route { addr: 0, mask_len: 0, slot: 0, mac: None }],
+        apps: vec![AppSpec {
+            n: 0,
+            script: vec![Action { at: Some(1000), kind: ActionKind::Open { local: Ep::new(own_addr(1), 40000), remote: dst, listen: false, payloads: vec![vec![], vec![i as u8; 7]] } }],
+            echo: false,
+        }],
+        ..Default::default()
+    };
+    Scenario { nets: vec![NetSpec::default()], machines: vec![receiver, sender], mode: RtMode::Paused, duration_us: 1_000_000 }
+}
+
 fn cfg_lines_of(spec: &str) -> (Vec<String>, u64) {
     let mut it = spec.lines();
     let head = it.next().unwrap_or("");
     let w: Vec<&str> = head.split_whitespace().collect();
     match w.as_slice() {
+        ["grid", i] => {
+            let mut l = grid_scenario(i.parse().unwrap_or(0)).to_lines();
+            l.push("planner seed=0".into());
+            (l, 0)
+        }
         ["gen", _id, seed] => {
             let seed: u64 = seed.parse().unwrap_or(1);
             let mut l = gen_scenario(seed).to_lines();
@@ -706,7 +752,7 @@ pub fn run(args: &Args) {
         vec![format!("replay\n{}", read_ops(rp).join("\n"))]
     } else {
         let mut rng = Rng::new(args.seed);
-        (0..args.cases).map(|c| format!("gen {} {}", c, rng.next() >> 1)).collect()
+        (0..GRID).map(|i| format!("grid {}", i)).chain((0..args.cases).map(|c| format!("gen {} {}", c, rng.next() >> 1))).collect()
     };
     let workers = args.extra.get("workers").and_then(|s| s.parse().ok()).unwrap_or_else(default_workers);
     let outcomes = run_cases(&args.prop, &specs, workers, 25, 120);
